@@ -143,6 +143,10 @@ trait Member: Stark<F, D> + Copy {
     fn lookup_cell(&self, rows: &[Vec<F>], r: &mut ChaCha8Rng) -> (usize, usize) {
         (r.gen_range(0..rows.len()), 0)
     }
+    /// a cell whose change certainly violates an ordinary constraint
+    fn constrained_cell(&self, rows: &[Vec<F>], r: &mut ChaCha8Rng) -> (usize, usize) {
+        (r.gen_range(0..rows.len()), r.gen_range(0..rows[0].len()))
+    }
     /// does a lookup column / filter of this member read the next row?
     fn has_next(&self) -> Option<bool> {
         None
@@ -267,6 +271,9 @@ impl Member for Lk {
             }
         }
         (0, 0)
+    }
+    fn constrained_cell(&self, rows: &[Vec<F>], r: &mut ChaCha8Rng) -> (usize, usize) {
+        (r.gen_range(0..rows.len()), 6)         // pw = a^d; the filter columns and column 7 are free
     }
     fn has_next(&self) -> Option<bool> {
         Some(self.has_next_row_column())
@@ -684,7 +691,7 @@ fn run_member<S: Member>(s: &Value, stark: S, selftest_all: bool) -> Vec<Value> 
                 "corrupt_trace" | "corrupt_lookup" => {
                     for _ in 0..per_class {
                         let mut rows2 = rows.clone();
-                        let (i, j) = if c == "corrupt_lookup" { stark.lookup_cell(&rows, &mut r) } else { (r.gen_range(0..n), r.gen_range(0..rows[0].len())) };
+                        let (i, j) = if c == "corrupt_lookup" { stark.lookup_cell(&rows, &mut r) } else { stark.constrained_cell(&rows, &mut r) };
                         rows2[i][j] += F::from_canonical_u64(1 + if c == "corrupt_lookup" { 0 } else { r.gen_range(0..1000u64) });
                         let mut k = Knobs::default();
                         k.lenient_trim = true;
